@@ -31,3 +31,65 @@ def content_clone(t, edit_clone, **kw):
     a.body.append(Paragraph("y"))
     indep = b.root.serialize() == before
     return (not (born and indep)), f"equal at birth {born}; independent {indep}"
+
+
+def _state(doc):
+    out = {}
+    for p in ("content.xml", "styles.xml", "meta.xml", "settings.xml", "META-INF/manifest.xml"):
+        out[p] = doc.get_part(p).root.serialize()
+    for p in doc.container.parts:
+        if p in out or p.endswith("/"):
+            continue
+        try:
+            out[p] = doc.container.get_part(p)
+        except ValueError:
+            pass  # marked as deleted
+    return out
+
+
+def _diff(a, b):
+    return sorted(k for k in set(a) | set(b) if a.get(k) != b.get(k))
+
+
+def doc_clone(touch_body, touch_styles, touch_meta, add_blob, mask=0, from_file=False, t="ab", **kw):
+    del_blob, edit_clone = bool(mask & 1), bool(mask & 2)
+    import io
+    from odfdo import Style
+    from odfdo.document import Blob
+    doc = Document("text")
+    if from_file:  # a document opened from a zip on disk (Container.clone then reads the zip)
+        import os
+        import tempfile
+        d = tempfile.mkdtemp()
+        path = os.path.join(d, "x.odt")
+        doc.save(path)
+        doc = Document(path)
+    doc.set_part("Pictures/old.png", b"old")
+    doc.manifest.add_full_path("Pictures/old.png", "image/png")
+    if touch_body:
+        doc.body.append(Paragraph("x" + t))
+    if touch_styles:
+        doc.insert_style(Style("paragraph", name="S" + t))
+    if touch_meta:
+        doc.meta.title = "T" + t
+    if add_blob:
+        b = Blob()
+        b.name, b.content, b.mime_type = "a.png", b"data", "image/png"
+        doc._add_binary_part(b)
+    if del_blob:
+        doc.del_part("Pictures/old.png")
+    before = _state(doc)
+    c = doc.clone
+    notes = []
+    if _state(doc) != before:
+        notes.append(f"cloning changed the original: {_diff(_state(doc), before)}")
+    if _state(c) != before:
+        notes.append(f"clone differs at birth in {_diff(_state(c), before)}")
+    a, b2 = (c, doc) if edit_clone else (doc, c)
+    a.body.append(Paragraph("y"))
+    a.meta.title = "other"
+    a.manifest.add_full_path("Pictures/z.png", "image/png")
+    a.container.set_part("Pictures/z.png", b"z")
+    if _state(b2) != before:
+        notes.append(f"an edit of one is seen in the other: {_diff(_state(b2), before)}")
+    return bool(notes), "; ".join(notes) or "equal at birth, original untouched, independent"
